@@ -16,9 +16,12 @@ RULE = ('(1) encoder round trip: code points (sampled in quick, the whole '
         '\'..\' and "..", and verbatim in `..`; (3) integer literals up to '
         '4000 digits, decimals up to 400+400 digits; (4) identifier-shaped '
         'words incl. reserved words, operator words and leading '
-        'underscores; non-trivial = string with a quote, backslash, control, '
+        'underscores; (5) the same word parsed in one process by engines '
+        'whose tables have more / fewer identifier-like operators, in '
+        'generated orders; non-trivial = string with a quote, backslash, control, '
         'non-ASCII or non-BMP character or empty; number with >18 digits or '
-        'a fraction; reserved / underscore words; distinct = distinct case')
+        'a fraction; reserved / underscore words; word that is an operator '
+        'under one of the tables used and a name under another; distinct = distinct case')
 ASSUMPTIONS = [
     'both the evaluated value and Constant.value in the tree are compared, '
     'by code points',
@@ -260,8 +263,68 @@ def check_word(run, case):
                     % (w, out[1], exp), input_class='word')
 
 
+# ---- the same word under engines with different operator words ------------
+
+_WORD_ENGINES = {}
+
+
+def word_engine(name):
+    """engines whose tables differ in the identifier-like operators: what a
+    word stands for is decided by the table of the engine that parses it"""
+    if name not in _WORD_ENGINES:
+        from yaql.language import factory as yfactory
+        if name == 'default':
+            e, words = _engine(), set(OPERATOR_WORDS)
+        elif name == 'extra':
+            e = common.engine(inserts=(
+                ('or', True, 'xor', yfactory.OperatorType.BINARY_LEFT_ASSOCIATIVE,
+                 False),
+                ('not', False, 'nothing',
+                 yfactory.OperatorType.PREFIX_UNARY, False)))
+            words = OPERATOR_WORDS | {'xor', 'nothing'}
+        else:
+            f = common.make_factory()
+            f.operators = [r for r in f.operators
+                           if r == () or r[0] not in ('mod', 'in')]
+            e, words = f.create(), OPERATOR_WORDS - {'mod', 'in'}
+        _WORD_ENGINES[name] = (e, words)
+    return _WORD_ENGINES[name]
+
+
+def check_word_engines(run, case):
+    w = common.dec(case['w'])
+    seen = set()
+    for name in case['order']:
+        eng, opwords = word_engine(name)
+        try:
+            stmt = eng(w)
+            out = ('ok', stmt.evaluate(context=common.child()),
+                   getattr(stmt, 'value', None))
+        except Exception as e:
+            out = ('exc', e)
+        if w in opwords:
+            if out[0] == 'ok':
+                run.violate('operator-word-is-a-value', case,
+                            '%s -> %r under the %s table' % (w, out[1], name),
+                            input_class='engines:' + name)
+        elif out[0] != 'ok':
+            run.violate('word-rejected', case,
+                        '%s raised %s: %s under the %s table' % (
+                            w, type(out[1]).__name__, out[1], name),
+                        exc=out[1], input_class='engines:' + name)
+        elif out[1] != w or type(out[1]) is not str:
+            run.violate('word-denotes-other-value', case,
+                        '%s -> %r under the %s table' % (w, out[1], name),
+                        input_class='engines:' + name)
+        seen.add(w in opwords)
+    run.case(case, len(seen) == 2, fp=(case['w'], tuple(case['order'])),
+             cls=['word-engines'] + (['table-dependent'] if len(seen) == 2
+                                     else []))
+
+
 REPLAY = {'roundtrip': check_roundtrip, 'decode': check_decode,
-          'number': check_number, 'word': check_word}
+          'number': check_number, 'word': check_word,
+          'word-engines': check_word_engines}
 
 # --------------------------------------------------------------------------
 
@@ -343,10 +406,23 @@ def _hyp_shard(run, which, n, shard):
         run.hyp('numbers', numbers.map(lambda t: {'kind': 'number',
                                                   'text': t}),
                 lambda c: check_number(run, c), n, shard=shard)
-    else:
+    elif which == 'word':
         run.hyp('words', words.map(lambda w: {'kind': 'word',
                                               'w': common.enc(w)}),
                 lambda c: check_word(run, c), n, shard=shard)
+    else:
+        plain = st.one_of(
+            st.sampled_from(['mod', 'in', 'xor', 'nothing', 'mod', 'in',
+                             'xor', 'nothing', 'abc', 'order']),
+            words.filter(lambda w: not w.startswith('__') and
+                         w not in CONSTANTS))
+        cases = st.builds(
+            lambda w, o: {'kind': 'word-engines', 'w': common.enc(w),
+                          'order': o},
+            plain, st.lists(st.sampled_from(['default', 'extra', 'fewer']),
+                            min_size=2, max_size=4))
+        run.hyp('word-engines', cases, lambda c: check_word_engines(run, c),
+                n, shard=shard)
 
 
 def run(run):
@@ -378,7 +454,8 @@ def run(run):
     jobs = []
     for which, nq, nf in (('roundtrip', 6000, 100000),
                           ('decode', 3000, 50000), ('number', 800, 10000),
-                          ('word', 800, 10000)):
+                          ('word', 800, 10000),
+                          ('word-engines', 400, 6000)):
         for i in range(k):
             jobs.append((which, (nf if full else nq) // k, i))
     run.shards(_hyp_shard, jobs)
